@@ -35,6 +35,52 @@ def assert_repo():
         )
 
 
+def start_line_coverage():
+    """Developer aid (VERIF_COV=<dir>): records which lines of the library this
+    worker executed, with sys.monitoring (each location reports once)."""
+    covdir = os.environ.get("VERIF_COV")
+    if not covdir or not hasattr(sys, "monitoring"):
+        return None
+    mon = sys.monitoring
+    tool = mon.COVERAGE_ID
+    try:
+        mon.use_tool_id(tool, "verif-linecov")
+    except ValueError:
+        return None
+    root = os.path.join(os.path.realpath(core.REPO_DIR), "jsonrpclib") + os.sep
+    seen = set()
+    branches = set()
+
+    def on_line(code, line):
+        fn = code.co_filename
+        if fn.startswith(root) or os.path.realpath(fn).startswith(root):
+            seen.add((os.path.basename(fn), line))
+        return mon.DISABLE
+
+    def on_branch(code, src, dst):
+        fn = code.co_filename
+        if fn.startswith(root) or os.path.realpath(fn).startswith(root):
+            # line of the branch instruction and line of its destination
+            lines = {}
+            for start, end, ln in code.co_lines():
+                if ln is not None:
+                    for off in (src, dst):
+                        if start <= off < end:
+                            lines[off] = ln
+            branches.add((os.path.basename(fn), code.co_qualname, src, lines.get(src), lines.get(dst)))
+        return mon.DISABLE
+
+    mon.register_callback(tool, mon.events.LINE, on_line)
+    mon.register_callback(tool, mon.events.BRANCH, on_branch)
+    mon.set_events(tool, mon.events.LINE | mon.events.BRANCH)
+
+    def finish(label):
+        os.makedirs(covdir, exist_ok=True)
+        with open(os.path.join(covdir, "%s-%d.json" % (label, os.getpid())), "w") as fp:
+            json.dump({"lines": sorted(seen), "branches": sorted(branches, key=repr)}, fp)
+    return finish
+
+
 def main(argv=None):
     ap = argparse.ArgumentParser()
     ap.add_argument("--prop", required=True)
@@ -54,6 +100,7 @@ def main(argv=None):
               "found": [], "harness_error": None, "complete": True}
     t0 = time.time()
     rec = core.Recorder()
+    cov_finish = start_line_coverage()
     try:
         assert_repo()
         mod = load_prop(args.prop)
@@ -125,6 +172,8 @@ def main(argv=None):
     with open(tmp, "w") as fp:
         json.dump(report, fp)
     os.replace(tmp, args.out)
+    if cov_finish:
+        cov_finish("%s-%s-%d" % (args.prop, args.sub or "replay", args.shard))
     # Daemon threads of the code under test must not keep us alive
     sys.stdout.flush()
     sys.stderr.flush()
